@@ -206,8 +206,9 @@ Qed.
 
 Lemma write_back_store c s b : store (write_back c s b) = store s.
 Proof.
-  unfold write_back, cursor_changed, text_changed.
-  destruct (negb (str_eqb _ _)); destruct (negb (bcur b =? cur s)); destruct (val c); try destruct (vwt c); reflexivity.
+  unfold write_back. destruct (negb (bcur b =? cur s)); [rewrite cc_store|];
+    unfold text_changed;
+    destruct (negb (str_eqb _ _)); destruct (val c); try destruct (vwt c); reflexivity.
 Qed.
 
 Lemma pop_step_coh s : Coh (store s) -> Coh (store (pop_step s)).
